@@ -134,11 +134,47 @@ Definition p_statuses (s : pstate) : list (Z * Z) :=
                              end
                  end) (pthreads s).
 
+(* ---- WP (mr / fx worker pools): actor 0 = the caller of ForEach / Walk(...).Done() (model:
+   the dispatcher it starts), actor k+1 = the worker of item k ---- *)
+Definition w_at_gate (s : wstate) (x : nat) : bool :=
+  match x with
+  | O => match wd s with DInit => true | _ => false end
+  | S k =>
+    match nth_error (wtasks s) k with
+    | Some tk => match wst tk with WRun | WDn => true | _ => false end
+    | None => true
+    end
+  end.
+
+(* the caller returns when the dispatcher is done, or (mr) as soon as a mapper panicked *)
+Definition w_caller_done (s : wstate) : bool :=
+  match wd s with
+  | DDone => true
+  | _ => match wvar s with WMr => wfailed s | WFx => false end
+  end.
+
+Definition w_statuses (s : wstate) : list (Z * Z) :=
+  (match wd s with
+   | DInit => (0, 0)%Z
+   | _ => if w_caller_done s then (2, 0)%Z else (1, 0)%Z
+   end) ::
+  map (fun tk => match wst tk with
+                 | WRun => (3, 0)%Z
+                 | WDn => (2, 0)%Z
+                 | _ => (1, 0)%Z
+                 end) (wtasks s).
+
+Definition w_results (s : wstate) : list (list Z) :=
+  [if w_caller_done s
+   then [match wvar s with WMr => if wfailed s then 3%Z else 1%Z | WFx => 1%Z end]
+   else []].
+
 (* ---- cases ---- *)
 Inductive kase :=
 | KLim (n : nat) (scripts : list (list lop))
 | KTR (n : nat) (scripts : list (list rop))
-| KPL (n : nat) (maxage : Z) (scripts : list (list pop)).
+| KPL (n : nat) (maxage : Z) (scripts : list (list pop))
+| KWP (v : wvariant) (n : nat) (items : list bool).
 
 (* events: kind 0 inv, 1 fs (body / task starts), 2 fe (ends), 3 ret (v1 = result),
    4 blk (seen blocked at a quiescent point), 5 create (v1 = id), 6 destroy (v1 = id),
@@ -166,6 +202,9 @@ Definition agrees (c : case) : bool :=
     | KPL n ma sc =>
       let '(s, ok) := drive pstep p_at_gate (fun s _ => s) p_statuses (pinit n ma sc) (csteps c) in
       ok && zss_eqb (map pres (pthreads s)) (cres c)
+    | KWP v n items =>
+      let '(s, ok) := drive wstep w_at_gate (fun s _ => s) w_statuses (winit v n items) (csteps c) in
+      ok && zss_eqb (w_results s) (cres c)
     end
   else true.
 
@@ -180,6 +219,9 @@ Definition model_obs (c : case) : list (Z * Z) * list (list Z) :=
   | KPL n ma sc =>
     let '(s, ok) := drive pstep p_at_gate (fun s _ => s) p_statuses (pinit n ma sc) (csteps c) in
     (p_statuses s, map pres (pthreads s))
+  | KWP v n items =>
+    let '(s, ok) := drive wstep w_at_gate (fun s _ => s) w_statuses (winit v n items) (csteps c) in
+    (w_statuses s, w_results s)
   end.
 
 (* ------------------------------------------------------------------ *)
@@ -303,9 +345,30 @@ Fixpoint pl_scan (n maxage : Z) (sc : list (list pop)) (l : list ev) (m : pmon) 
     ok && (mlive m' <=? n)%Z && pl_scan n maxage sc l' m'
   end.
 
+(* WP: workers inside the user function never exceed n; no item runs twice *)
+Fixpoint wp_scan (n : Z) (l : list ev) (running : Z) (started : list nat) : bool :=
+  match l with
+  | [] => true
+  | e :: l' =>
+    if (ek e =? 1)%Z then
+      (running <? n)%Z && negb (existsb (Nat.eqb (ea e)) started) && wp_scan n l' (running + 1)%Z (ea e :: started)
+    else if (ek e =? 2)%Z then wp_scan n l' (running - 1)%Z started
+    else wp_scan n l' running started
+  end.
+
+(* ... and no capacity is lost: every item is eventually run (fx always; mr unless a mapper
+   panicked, which stops the dispatching) once the run has been drained *)
+Definition wp_complete (v : wvariant) (items : list bool) (l : list ev) : bool :=
+  let ended := length (filter (fun e => (ek e =? 2)%Z) l) in
+  match v with
+  | WFx => Nat.eqb ended (length items)
+  | WMr => if existsb (fun b => b) items then true else Nat.eqb ended (length items)
+  end.
+
 Definition prop_ok (c : case) : bool :=
   match ckind c with
   | KLim n sc => lim_scan (Z.of_nat n) sc (clog c) 0 0
   | KTR n sc => tr_scan (Z.of_nat n) (clog c) 0 0
   | KPL n ma sc => pl_scan (Z.of_nat n) ma sc (clog c) (mkPM [] [] [] [] [] 0 1000000)
+  | KWP v n items => wp_scan (Z.of_nat n) (clog c) 0 [] && wp_complete v items (clog c)
   end.
